@@ -5,6 +5,22 @@ func adjustConfigFor(cfg *Config, prop string, seed uint64) {
 	// finding F1 (DESIGN.md): every check but C16's explores beyond it
 	cfg.Compensate = prop != "C16"
 	switch prop {
+	case "C02":
+		// one run in three with a Byzantine validator concentrates on defective proposals, with few other faults
+		// in the way of their being committed (the draw is the seed's, other properties' runs are untouched)
+		for _, b := range cfg.Byz {
+			if b && seed%3 == 0 {
+				cfg.BadBlockFocus = true
+			}
+		}
+		if cfg.BadBlockFocus {
+			cfg.Attack = ""
+			cfg.WCrash, cfg.WRestart, cfg.MaxCrashes = 0, 0, 0
+			cfg.Partition = false
+			if cfg.TargetHeight < 5 {
+				cfg.TargetHeight = 5
+			}
+		}
 	case "C12":
 		cfg.Suffix = true
 	case "C08":
